@@ -13,13 +13,20 @@ What the translation does (and therefore what the C15 proofs assume about Cython
   * `<long> e` -> `int(e)`
   * bytes / bytearray are modelled as lists of character codes (vc/builtins_model.py); indexing yields an
     int, `.decode()` rebuilds the string
-  C integer wrap-around is not modelled: every integer is a Python int.  The widest values are the
-  24-bit CRC register and 8-bit bytes, far below 2**31, which is argued in DESIGN.md rather than proved.
+  * C integer widths of *typed variables*: every assignment to a local declared `cdef <integer type> x`
+    (plain, augmented, or with initialiser), every store into a typed memoryview element and every `return` of
+    a function with a C integer return type is wrapped in `_c_narrow(value, bits, signed)`: two's-complement
+    truncation to the declared width (LP64: int 32, long / Py_ssize_t 64, char 8).  The VC generator proves
+    the value in range from its bounds (then the wrap is the identity) or continues with the truncated value,
+    so a narrowing that loses bits shows up as a disagreement with the Python twin.  Not modelled: overflow
+    *inside* an expression (C `long` arithmetic; the widest intermediate is 2*cumul+1 below 2**57) and the
+    OverflowError Cython raises when a Python object too large for the C type is converted (the translation
+    truncates instead).
 """
 import re
 
 PRELUDE = '''import numpy as np
-from vc_pyx_runtime import array, PyBytes_GET_SIZE, PyByteArray_GET_SIZE, bytes, bytearray, _as_char
+from vc_pyx_runtime import array, PyBytes_GET_SIZE, PyByteArray_GET_SIZE, bytes, bytearray, _as_char, _c_narrow
 cos = np.cos
 acos = np.arccos
 fabs = abs
@@ -27,57 +34,181 @@ pi = np.pi
 c_floor = np.floor
 '''
 
+CINT = {"int": (32, True), "long": (64, True), "long long": (64, True), "Py_ssize_t": (64, True),
+        "unsigned char": (8, False), "char": (8, True), "signed char": (8, True),
+        "unsigned int": (32, False), "unsigned long": (64, False)}
+
+
+def _norm(t):
+    return " ".join(t.split()) if t else t
+
+
+def _split_comment(line):
+    """-> (code, comment) with the comment starting at the first # outside a string literal"""
+    q = None
+    i = 0
+    while i < len(line):
+        ch = line[i]
+        if q:
+            if ch == "\\":
+                i += 1
+            elif ch == q:
+                q = None
+        elif ch in "\"'":
+            q = ch
+        elif ch == "#":
+            return line[:i].rstrip(), "  " + line[i:]
+        i += 1
+    return line.rstrip(), ""
+
+
+def _narrow(expr, ctype):
+    bits, signed = CINT[ctype]
+    return "_c_narrow(%s, %d, %s)" % (expr, bits, signed)
+
+
 CTYPES = r"(?:unsigned\s+char|unsigned\s+int|unsigned\s+long|signed\s+char|Py_ssize_t|long\s+long|double|float|long|int|char|bint|str|bytes|bytearray|array\.array|object)"
 
 
-def _strip_param_types(params):
-    out = []
+def _params(params):
+    """-> (python parameter list, {name: C integer type}, {name: element type of a typed memoryview})"""
+    out, ints, views = [], {}, {}
     for p in params.split(","):
         p = p.strip()
         if not p:
             continue
-        m = re.match(r"^(?:%s)\s*(?:\[[^\]]*\])?\s+(\w+\s*(?:=.*)?)$" % CTYPES, p)
-        out.append(m.group(1) if m else p)
-    return ", ".join(out)
+        m = re.match(r"^(%s)\s*(\[[^\]]*\])?\s+(\w+)\s*(=.*)?$" % CTYPES, p)
+        if m:
+            t, dims, name, default = _norm(m.group(1)), m.group(2), m.group(3), m.group(4) or ""
+            if dims:
+                views[name] = t
+            elif t in CINT:
+                ints[name] = t
+            out.append(name + (" " + default if default else ""))
+        else:
+            out.append(p)
+    return ", ".join(out), ints, views
+
+
+def _logical_lines(text):
+    """physical lines -> logical lines: a statement continued inside brackets is joined into one line (comments
+    of the continuation lines dropped); lines of a multi-line triple-quoted string are passed through"""
+    buf, depth, triple = None, 0, None
+    for raw in text.splitlines():
+        if triple:
+            yield raw, True
+            if triple in raw:
+                triple = None
+            continue
+        st = raw.strip()
+        if buf is None and (st.startswith('"""') or st.startswith("'''")):
+            q = st[:3]
+            if st.count(q) < 2:
+                triple = q
+            yield raw, True
+            continue
+        code, comment = _split_comment(raw)
+        q = None
+        for ch in code:
+            if q:
+                if ch == q:
+                    q = None
+            elif ch in "\"'":
+                q = ch
+            elif ch in "([{":
+                depth += 1
+            elif ch in ")]}":
+                depth -= 1
+        if buf is None:
+            if depth > 0:
+                buf = code
+            else:
+                yield raw, False
+        else:
+            buf += " " + code.strip()
+            if depth <= 0:
+                yield buf, False
+                buf, depth = None, 0
+    if buf is not None:
+        yield buf, False
 
 
 def pyx_to_python(text):
     out = [PRELUDE]
-    for line in text.splitlines():
+    cvars, cviews, ret = {}, {}, None          # typed names of the function being translated
+    for raw, verbatim in _logical_lines(text):
+        if verbatim:
+            out.append(raw)
+            continue
+        line, comment = _split_comment(raw)
         s = line.strip()
         indent = line[: len(line) - len(line.lstrip())]
-        if s.startswith("# cython:") or s.startswith("cimport ") or re.match(r"^from\s+\S+\s+cimport\s", s):
+        if raw.strip().startswith("# cython:") or s.startswith("cimport ") or re.match(r"^from\s+\S+\s+cimport\s", s):
             continue
         if s.startswith("@cython."):
             continue
-        # function headers
-        m = re.match(r"^(cdef|cpdef)\s+(?:inline\s+)?(?:%s\s+)?(\w+)\s*\((.*)\)\s*:\s*$" % CTYPES, s)
-        if m:
-            out.append("%sdef %s(%s):" % (indent, m.group(2), _strip_param_types(m.group(3))))
+        if not s:
+            out.append(raw)
             continue
+        # function headers
+        m = re.match(r"^(cdef|cpdef)\s+(?:inline\s+)?(?:(%s)\s+)?(\w+)\s*\((.*)\)\s*:\s*$" % CTYPES, s)
+        if m:
+            plist, cvars, cviews = _params(m.group(4))
+            ret = _norm(m.group(2))
+            out.append("%sdef %s(%s):%s" % (indent, m.group(3), plist, comment))
+            continue
+        if re.match(r"^def\s", s) and not indent:
+            cvars, cviews, ret = {}, {}, None
         # typed local / module declarations
         m = re.match(r"^cdef\s+(%s)\s*(\[[^\]]*\])?\s*(.*)$" % CTYPES, s)
         if m:
-            ctype, dims, rest = m.group(1), m.group(2), m.group(3)
+            ctype, dims, rest = _norm(m.group(1)), m.group(2), m.group(3)
             if "=" in rest:
                 name, expr = rest.split("=", 1)
                 name, expr = name.strip(), expr.strip()
-                if ctype in ("char", "unsigned char", "signed char") and dims is None and \
-                   re.match(r"^\w+\[[^\]:]+\]$", expr):
-                    # a 1-character str (or a byte) coerced to a C char
-                    expr = "_as_char(%s)" % expr
-                out.append("%s%s = %s" % (indent, name, expr))
+                if dims is not None:
+                    cviews[name] = ctype
+                elif ctype in CINT:
+                    cvars[name] = ctype
+                    if ctype in ("char", "unsigned char", "signed char") and re.match(r"^\w+\[[^\]:]+\]$", expr):
+                        # a 1-character str (or a byte) coerced to a C char
+                        expr = "_as_char(%s)" % expr
+                    expr = _narrow(expr, ctype)
+                out.append("%s%s = %s%s" % (indent, name, expr, comment))
             else:
-                out.append("%spass" % indent)
+                for name in rest.split(","):
+                    if dims is not None:
+                        cviews[name.strip()] = ctype
+                    elif ctype in CINT:
+                        cvars[name.strip()] = ctype
+                out.append("%spass%s" % (indent, comment))
             continue
         m = re.match(r"^cdef\s+(\w+)\s*=\s*(.*)$", s)          # untyped `cdef name = expr`
         if m:
-            out.append("%s%s = %s" % (indent, m.group(1), m.group(2)))
+            out.append("%s%s = %s%s" % (indent, m.group(1), m.group(2), comment))
             continue
         # casts
         line2 = re.sub(r"<\s*(?:long|int|double)\s*>\s*", "int(", line)
         if line2 != line:
             # close the parenthesis at the end of the expression (single cast per line in this file)
-            line2 = line2.rstrip() + ")"
-        out.append(line2)
+            line = line2.rstrip() + ")"
+            s = line.strip()
+        # stores into C-typed variables / typed memoryview elements, returns of C integer functions
+        m = re.match(r"^(\w+)\s*(\+|-|\*|//|%|\^|\||&|<<|>>)?=(?!=)\s*(.+)$", s)
+        if m and indent and m.group(1) in cvars:
+            name, op, expr = m.groups()
+            if op:
+                expr = "%s %s (%s)" % (name, op, expr)
+            out.append("%s%s = %s%s" % (indent, name, _narrow(expr, cvars[name]), comment))
+            continue
+        m = re.match(r"^(\w+)\[([^\]]+)\]\s*=(?!=)\s*(.+)$", s)
+        if m and indent and m.group(1) in cviews and cviews[m.group(1)] in CINT:
+            name, idx, expr = m.groups()
+            out.append("%s%s[%s] = %s%s" % (indent, name, idx, _narrow(expr, cviews[name]), comment))
+            continue
+        m = re.match(r"^return\s+(.+)$", s)
+        if m and indent and ret in CINT:
+            out.append("%sreturn %s%s" % (indent, _narrow(m.group(1), ret), comment))
+            continue
+        out.append(line + comment)
     return "\n".join(out) + "\n"
